@@ -7,7 +7,7 @@ import NasimModel.Props.C18
 `_validate_subnets`, `_validate_topology`, `_validate_os / _services / _processes`, `_is_valid_subnet_ID`,
 `_is_valid_host_address`, `_validate_scan_cost`, `_is_valid_firewall_setting`, `_contains_all_required_firewalls`,
 `_validate_firewall`, `_validate_sensitive_hosts`, `_validate_single_exploit / _privesc`, `_validate_exploits /
-_privescs` and the step-limit test of `nasim/scenarios/loader.py`, translated
+_privescs`, `_has_all_host_addresses`, `_validate_host_address` and the step-limit test of `nasim/scenarios/loader.py`, translated
 from their source text over the YAML AST (`Generated/SrcLoad.lean`), accept exactly what the model's `subnetsOk`,
 `topologyOk`, `namesOk`, `validSubnetId`, `validHostAddr`, `scanCostOk`, `stepLimitOf` accept — so the C18 theorems
 about these rules (`C18_subnets`, `C18_topology`, `C18_names`, `C18_scan_cost`, `C18_step_limit`, the address tests
@@ -1015,5 +1015,65 @@ theorem Src_validate_defs (services processes osL : List Y) (m : List (Y × Y)) 
       (fun kv _ => by obtain ⟨k, v⟩ := kv; simp only [Src_validate_single_privesc])]
     cases m.all (fun kv => (parsePrivesc processes osL kv.1 kv.2).isSome) <;> rfl
 
+
+theorem getKey_isSome_pyIn (m : List (Y × Y)) (k : String) :
+    (getKey m k).isSome = pyIn (.str k) (m.map (·.1)) := by
+  unfold getKey pyIn
+  rw [Option.isSome_map]
+  induction m with
+  | nil => rfl
+  | cons p t ih =>
+    simp only [List.find?_cons, List.map_cons, List.any_cons]
+    rw [pyEq_symm (Y.str k) p.1]
+    cases p.1.pyEq (Y.str k)
+    · simpa using ih
+    · simp
+
+/-- `_has_all_host_addresses`: the canonical spelling of every address of every subnet is a key -/
+theorem Src_has_all_addrs (subnets : List Nat) (m : List (Y × Y)) :
+    SrcLoad.ScenarioLoader._has_all_host_addresses subnets (m.map (·.1)) = hasAllAddrs subnets m := by
+  unfold SrcLoad.ScenarioLoader._has_all_host_addresses hasAllAddrs
+  have hin : ∀ (p : Nat × Nat),
+      (match PyRt.forEach (β := Bool) (List.range p.2) () (fun h _ =>
+          if (!pyIn (Y.str (showPair (p.1 + 1) h)) (m.map (·.1))) = true then PyRt.Ctl.ret false else PyRt.Ctl.next ()) with
+        | .ret v => (PyRt.Ctl.ret v : PyRt.Ctl Bool Unit)
+        | .next _ => PyRt.Ctl.next ()) =
+      if (!(List.range p.2).all (fun h => (getKey m (showPair (p.1 + 1) h)).isSome)) = true then .ret false else .next () := by
+    intro p
+    rw [forEach_all' (List.range p.2) _ (fun h => (getKey m (showPair (p.1 + 1) h)).isSome)
+      (fun h _ => by rw [getKey_isSome_pyIn])]
+    cases (List.range p.2).all (fun h => (getKey m (showPair (p.1 + 1) h)).isSome) <;> rfl
+  show (match PyRt.forEach (β := Bool) (PyRt.enumerate (subnets.drop 1)) () (fun p _ =>
+      match PyRt.forEach (β := Bool) (List.range p.2) () (fun h _ =>
+          if (!pyIn (Y.str (showPair (p.1 + 1) h)) (m.map (·.1))) = true then PyRt.Ctl.ret false else PyRt.Ctl.next ()) with
+        | .ret v => (PyRt.Ctl.ret v : PyRt.Ctl Bool Unit)
+        | .next _ => PyRt.Ctl.next ()) with
+      | .ret v => v
+      | .next _ => true) = _
+  simp only [hin]
+  rw [forEach_all' (PyRt.enumerate (subnets.drop 1)) _
+    (fun p => (List.range p.2).all (fun h => (getKey m (showPair (p.1 + 1) h)).isSome)) (fun p _ => rfl)]
+  have : ∀ (b : Bool), (match (if b = true then (PyRt.Ctl.next () : PyRt.Ctl Bool Unit) else PyRt.Ctl.ret false) with
+      | .ret v => v | .next _ => true) = b := by intro b; cases b <;> rfl
+  rw [this, all_not_any, all_not_any]
+  unfold PyRt.enumerate
+  rw [List.range_eq_range']
+  rw [any_enum_zipIdx (subnets.drop 1) 0 (fun s size => !(List.range size).all (fun h => (getKey m (showPair (s + 1) h)).isSome))]
+
+/-- `_validate_host_address` (the key of a host-firewall entry) -/
+theorem Src_validate_host_address (subnets : List Nat) (k : Y) :
+    SrcLoad.ScenarioLoader._validate_host_address subnets k = hostFwKeyOk subnets k := by
+  unfold SrcLoad.ScenarioLoader._validate_host_address hostFwKeyOk PyRt.evalAddr
+  cases k with
+  | str s =>
+    simp only
+    cases parsePair s with
+    | none => rfl
+    | some ab =>
+      obtain ⟨a, b⟩ := ab
+      simp only [beq_self_eq_true, Bool.and_true, Bool.true_and, Bool.not_true, Bool.false_eq_true, if_false, ite_not_false]
+      cases decide (0 < a) <;> cases decide (a < (subnets.length : Int)) <;> cases decide (0 ≤ b) <;>
+        cases decide (b < ((subnets.getD a.toNat 0 : Nat) : Int)) <;> rfl
+  | _ => rfl
 
 end NASim
